@@ -358,6 +358,17 @@ def run_case(case, ctx):
             raise
         fail("file with numbers in exponent notation raised %s: %s" % (type(e).__name__, str(e)[:150]), "exponent")
     try:
+        from vmon.oracle.util import Pipe
+        from mofun import Atoms as _A
+        bp = _A.load_p1_cif(Pipe(t1))
+        if not same_structure(bp, b):
+            fail("the same file read from a stream that cannot seek reads differently", "pipe")
+        st.count("reads_from_a_stream_that_cannot_seek")
+    except Exception as e:
+        if type(e).__name__ == "PostBroken":
+            raise
+        fail("reading the file from a stream that cannot seek raised %s: %s" % (type(e).__name__, str(e)[:150]), "pipe")
+    try:
         bc = load(t1.replace("\n", "\r\n"))
         if not same_structure(bc, b):
             fail("the same file with CRLF line ends reads differently", "crlf")
